@@ -161,7 +161,11 @@ func VerifC11IngestHavoc() {
 		// thorough: a third deviating dimension for the pairs among transport, parameters and library version
 		// (with the secret length as well, one shard - 46 000 paths - and with every triple most
 		// shards did not finish within the 40-minute budget)
-		dims = append(dims, pr[1]+1+verifnd.Choose("third-dimension", nd-pr[1]))
+		nthird := nd - pr[1]
+		if nthird > 5 {
+			nthird = 5 // (the next five dimensions: with all of them the largest shard took 33 of its 40 minutes)
+		}
+		dims = append(dims, pr[1]+1+verifnd.Choose("third-dimension", nthird))
 	}
 	for _, i := range dims {
 		if i < nd {
